@@ -19,5 +19,8 @@ extern "C" void cv_assert_fail(void);
 #define assert(EX) ((EX) ? (void)0 : cv_assert_fail())
 extern "C" long long strtoll(const char *nptr, char **endptr, int base);
 extern "C" int atoi(const char *nptr);
+extern "C" long strtol(const char *nptr, char **endptr, int base);
+#define INT_MAX 2147483647
+#define INT_MIN (-2147483647 - 1)
 #endif
 #endif
